@@ -6,7 +6,7 @@ from harness.props import graph_common as gc
 ID = 'C15'
 PROPS_FILE = 'Props/Props_C15.v'
 EXTRA_TARGETS = ['Graph/Check.vo']
-CONST_PARTS = ()
+CONST_PARTS = ('srcgraph',)
 
 SPEC = gc.Spec(
     ID, 15,
